@@ -46,6 +46,10 @@ class FnSpec:
         self.body_start = ''
         self.loops = {}          # n -> {'iter':..,'invariant':[..],'decreases':[..]}
         self.before_loop = {}    # n -> text
+        self.loop_body_start = {}
+        self.loop_body_end = {}
+        self.after_loop = {}
+        self.closure_ensures = {}  # n -> explicit ensures text (default: ret == (body))
         self.closures = {}       # n -> header text
         self.rules = set()
         self.novac = False       # skip assert(false) vacuity probe (external fns)
@@ -125,11 +129,11 @@ def parse_spec(path):
                 section = ('clauses', cur_loop['invariant'])
             elif d == '@decreases':
                 section = ('clauses', cur_loop['decreases'])
-            elif d == '@before_loop':
+            elif d in ('@before_loop', '@loop_body_start', '@loop_body_end', '@after_loop'):
                 n = int(parts[1])
 
-                def tgt2(t, fn=cur_fn, n=n):
-                    fn.before_loop[n] = t
+                def tgt2(t, fn=cur_fn, n=n, attr=d[1:]):
+                    getattr(fn, attr)[n] = t
                 raw_buf = {'target': tgt2, 'lines': []}
                 section = ('raw',)
             elif d == '@closure':
@@ -154,7 +158,9 @@ def parse_spec(path):
         if section[0] == 'raw':
             raw_buf['lines'].append(line)
         elif section[0] == 'closure':
-            if line.strip():
+            if line.strip().startswith('ensures '):
+                cur_fn.closure_ensures[section[1]] = line.strip()[len('ensures '):]
+            elif line.strip():
                 cur_fn.closures[section[1]] = line.strip()
         else:
             m = re.match(r'\s*\[([A-Za-z0-9_]+)\]\s*(.*)$', line.rstrip('\n'))
@@ -244,8 +250,8 @@ def generate(unit, repo, vacuity_fn=None):
 
     chunks = []      # (text, origin_pieces|None, source_rel)
     with open(os.path.join(VERIF, unit['preamble'])) as f:
-        pre = f.read()
-    chunks.append((pre, None, None, None))
+        preamble_text = f.read()
+    chunks.append((preamble_text, None, None, None))
 
     def emit_item(src, rel, item, keep_derive):
         edits = []
@@ -301,12 +307,20 @@ def generate(unit, repo, vacuity_fn=None):
                    + _clauses('decreases', lp['decreases'], '%s/loop%d' % (pre, n), '            '))
             edits.append(Edit(toks[L.body_open].start, toks[L.body_open].start, txt + '        ', 'A2'))
             stats['A2'] += 1
-        for n, txt in fs.before_loop.items():
-            if n >= len(fn.loops):
-                raise RsxError('anchor lost: %s has no loop #%d' % (qual, n))
-            L = fn.loops[n]
-            edits.append(Edit(toks[L.kw].start, toks[L.kw].start, txt + '        ', 'A4'))
-            stats['A4'] += 1
+        for attr in ('before_loop', 'loop_body_start', 'loop_body_end', 'after_loop'):
+            for n, txt in getattr(fs, attr).items():
+                if n >= len(fn.loops):
+                    raise RsxError('anchor lost: %s has no loop #%d' % (qual, n))
+                L = fn.loops[n]
+                if attr == 'before_loop':
+                    edits.append(Edit(toks[L.kw].start, toks[L.kw].start, txt + '        ', 'A4'))
+                elif attr == 'loop_body_start':
+                    edits.append(Edit(toks[L.body_open].end, toks[L.body_open].end, '\n' + txt, 'A4', 1))
+                elif attr == 'loop_body_end':
+                    edits.append(Edit(toks[L.body_close].start, toks[L.body_close].start, '\n' + txt + '        ', 'A4'))
+                else:
+                    edits.append(Edit(toks[L.body_close].end, toks[L.body_close].end, '\n' + txt, 'A4'))
+                stats['A4'] += 1
         for n, hdr in fs.closures.items():
             if n >= len(fn.closures):
                 raise RsxError('anchor lost: %s has no closure #%d' % (qual, n))
@@ -326,9 +340,9 @@ def generate(unit, repo, vacuity_fn=None):
                 ty = pt.split(':', 1)[1].strip() if ':' in pt else pt
                 edits.append(Edit(toks[pb].end, toks[pb].end, ': ' + ty, 'A3'))
             body = src.text_of(C.body_first, C.body_last)
+            ens = fs.closure_ensures.get(n) or '%s == (%s)' % (m.group(2), body)
             edits.append(Edit(toks[C.bar2].end, toks[C.bar2].end,
-                              ' -> (%s: %s) ensures %s == (%s) {' % (m.group(2), m.group(3), m.group(2), body),
-                              'A3'))
+                              ' -> (%s: %s) ensures %s {' % (m.group(2), m.group(3), ens), 'A3'))
             edits.append(Edit(toks[C.body_last].end, toks[C.body_last].end, ' }', 'A3'))
             stats['A3'] += 1
         if fs.rules:
@@ -406,6 +420,12 @@ def generate(unit, repo, vacuity_fn=None):
             names.append('%s/%s/safety' % (pre, f['qual']))
             g.obligations.extend(names)
         f['obligations'] = names
+    g.lemmas = []
+    for m in re.finditer(r'((?:#\[verifier::external_body\]\s*)?)(?:pub\s+)?proof fn (\w+)', preamble_text):
+        if m.group(1):
+            continue   # axiom: trusted, listed by the assumption scan
+        g.lemmas.append('%s/lemma::%s' % (unit['name'], m.group(2)))
+    g.obligations.extend(g.lemmas)
     g.edit_stats = {k: v for k, v in stats.items() if v}
     return g
 
@@ -531,7 +551,7 @@ def classify(g, res):
             detail += ' (callee clause %s)' % callee_clause
         elif name is None or 'arithmetic' in msg:
             if f is None:
-                out['undecided'].append('failure outside any contracted function (preamble lemma?): ' + detail)
+                out['undecided'].append('proof failure outside any contracted function (a lemma of the hand-written preamble): ' + detail)
                 continue
             name = '%s/%s/safety' % (g.unit_name, f['qual'])
         out['failed'].setdefault(name, []).append(detail)
